@@ -26,12 +26,13 @@ sec = f"""
 
 ## 12. Seeded changes and which checks catch them
 
-{len(rows)} property-breaking changes were written in five batches by independent sub-agents that saw only the text of
+{len(rows)} property-breaking changes were written in six batches by independent sub-agents that saw only the text of
 one property and a scratch worktree (nothing from /verif): batch 1 (ids `CnnA`, `CnnB`, all 20 properties, against the
 tree with fixes F1-F15), batch 2 (`CnnC`, `CnnD` for 12 schedule / negotiation properties, against the tree with F1-F24),
 batch 3 (`CnnC`, `CnnD` for the remaining 8, against F1-F26), batch 4 (`CnnE`, `CnnF` for the 8 schedule properties,
-asked for changes that need a specific, deep history to show) and batch 5 (`CnnG`, `CnnH` for the other 12, same
-brief; both against F1-F27).  Each was confirmed in a scratch worktree (patch applies
+asked for changes that need a specific, deep history to show), batch 5 (`CnnG`, `CnnH` for the other 12, same
+brief; both against F1-F27) and batch 6 (`CnnI`, `CnnJ` (`K`) for all 20: omissions, the wrong one of two similar things,
+error / rare paths, changes outside the obvious function, interactions of two features).  Each was confirmed in a scratch worktree (patch applies
 on its own, the 176-test baseline still passes, its demonstration exits 0 without and 1 with the change;
 `tools/confirm_seed2.sh`) and is kept as `seeded/<id>/{{patch.diff, demo.py, notes.md, meta.json}}`.
 `tools/run_seeded.py` applies each to a scratch worktree of /repo's HEAD, points the **quick** tier of its property's
@@ -62,7 +63,15 @@ raising must not end the loop).  Batch 5 - C07 (1-15 extra padding blocks on ref
 (`get_network()` of arbitrary non-CIDR ranges must be the smallest covering network), C14 (policy indices up to
 2^32-1 in ACQUIRE events and `create_policy`), C15 (entries without explicit index: the daemon-chosen indices must be
 distinct and map back), C18 (the half-open load comes from a second peer), C20 (the ERROR record pyikev2.py writes for a
-refused configuration).
+refused configuration).  Batch 6 (14 of 42 first missed) - C02 (a NEWSA request counts as installation even if the SA is
+removed again; a refused positive control is explained by the endpoint's own AUTH), C05 (second `to_bytes()`, dump after
+serialising, header values of the dump), C08 (rewritten exchange types; late IKE_SA_INIT copies on the IKE_SA objects),
+C09 (no immediate retry after TEMPORARY_FAILURE), C13 (transmissions counted on the wire, `<= MAX_RETRANSMISSIONS`
+including the first), model kernel deletes hard-expired SAs itself as Linux does (C10, C13), C15 (directed ACQUIRE at
+every point of an IKE_SA rekey - C15D had become a matter of seed), C16 (`table-lost-live-ike-sa`), C18 (rekeys / new
+CHILD_SAs after the cookie round), C19 (vocabulary stage: every documented name), C20 (directed completed exchanges at
+INFO, strangers).  C08J is only reachable at IKE_SA level (the loop never hands an IKE_SA_INIT request to an existing
+IKE_SA) and is caught there by C08 and by C03.
 """
 p = ROOT + '/DESIGN.md'
 s = open(p).read()
